@@ -1,0 +1,32 @@
+// Verification hooks. Only compiled with `--cfg typify_verif`; never part of
+// a normal build.
+
+//! Event log used by external runtime monitors.
+
+use std::cell::RefCell;
+use std::io::Write;
+
+thread_local! {
+    static EVENTS: RefCell<Vec<String>> = const { RefCell::new(Vec::new()) };
+}
+
+/// Record an event. The detail closure is only evaluated here, i.e. only in
+/// builds with the `typify_verif` cfg.
+pub fn event<F: FnOnce() -> serde_json::Value>(kind: &str, detail: F) {
+    let line = serde_json::json!({ "k": kind, "d": detail() }).to_string();
+    if let Ok(path) = std::env::var("TYPIFY_VERIF_LOG") {
+        if let Ok(mut f) = std::fs::OpenOptions::new()
+            .create(true)
+            .append(true)
+            .open(path)
+        {
+            let _ = f.write_all(format!("{}\n", line).as_bytes());
+        }
+    }
+    EVENTS.with(|e| e.borrow_mut().push(line));
+}
+
+/// Remove and return all events recorded on this thread.
+pub fn drain() -> Vec<String> {
+    EVENTS.with(|e| std::mem::take(&mut *e.borrow_mut()))
+}
